@@ -916,6 +916,7 @@ def extract(build, ir_text=None):
     M.guard_tracked = []
     M.stop_nodes = []
     M.out_sites = []
+    M.out_forks = []
     M.setjmp_fns = set()
     M.param_slot = {}
     nodes = []            # (fn id, op tuple, succ node ids)   op: ('nop',) ('assert',m) ('libc',fn,name) ('call',g) ('havoc',why) ('ret',)
@@ -973,6 +974,8 @@ def extract(build, ir_text=None):
                 if op[0] == "choice":      # assert(c ? A : B): a fork (nop) to one assert node per constant; no condition modelled
                     nodes.append([fidx, ("nop",), []])
                     M.node_src.append((name, b.label, txt))
+                    if len(op) > 2:
+                        M.out_forks.append((ent,) + op[2])
                     heads, new_exits = [], []
                     for alt in op[1]:          # each alternative is a chain of ops
                         prev = None
@@ -1021,6 +1024,22 @@ def extract(build, ir_text=None):
     M.nodes = nodes
     M.fn_ids = fn_ids
     M.entries_of = entry_of
+    # out-parameter families: (function, key constant) -> size of a clone, [(graph function, value; OUT_NONE_L = nothing)], [(node offset, constant)]
+    M.out_families, M.out_family_ix = [], {}
+    for n in M.out_param:
+        for key in sorted(set(k[1] for k in M.clone_id if k[0] == n), key=lambda x: -1 if x is None else x):
+            clones = [(M.clone_id[(n, key, ov)], OUT_NONE_L if ov == OUT_NONE else ov) for ov in M.out_param[n]["vals"] + [OUT_NONE]]
+            f0 = clones[0][0]
+            size = (entry_of[f0 + 1] if f0 + 1 < len(entry_of) else len(nodes)) - entry_of[f0]
+            stores = []
+            for j in range(size):
+                src = M.node_src[entry_of[f0] + j][2]
+                ms = re.match(r'out-store (\d+): ', src)
+                if ms:
+                    stores.append((j, int(ms.group(1))))
+            M.out_family_ix[(n, key)] = len(M.out_families)
+            M.out_families.append((size, clones, stores))
+    M.out_site_rows = [(n_, M.out_family_ix[(c_, k_)], off_) for n_, c_, k_, off_ in M.out_forks]
     # entry points: functions of the slice whose address escapes (registered cfunctions, method tables, callbacks)
     M.entry_fns = [n for n in M.slice if n in M.escaping]
     cfun_names = {}
@@ -1188,6 +1207,7 @@ def _keep(field):
 
 
 OUT_PTR_LIBC = {"getaddrinfo": 3}      # reviewed: external functions that return a pointer through argument k and do not keep the address
+OUT_NONE_L = 256                       # the same in the generated Lean tables
 OUT_NONE = -1                          # clone of an out-parameter function for the activations that store nothing
 
 
@@ -1557,7 +1577,8 @@ def _events(M, fname, i, fn_ids, fdefs, blk=None, var_asserts=()):
         return [(("havoc", "flag store"), i.text)]
     if fname in M.out_param and id(i) in M.out_param[fname]["stores"]:
         # `*p = c` in the clone for the activations that store `ov` (and nothing else) through p
-        return [] if M.out_param[fname]["stores"][id(i)] == M.cur_ov else [(("stop",), i.text)]
+        # (a `nop` in the clone that executes it, so that the clones of one function have the same node numbering: `outParamsOK`)
+        return [(("nop",) if M.out_param[fname]["stores"][id(i)] == M.cur_ov else ("stop",), "out-store %d: %s" % (M.out_param[fname]["stores"][id(i)], i.text))]
     # references to sensitive externals (address taken, or a variable such as environ read/written)
     for r in i.refs:
         if r in sens and not (i.kind == "call" and i.callee == r):
@@ -1613,7 +1634,7 @@ def _events(M, fname, i, fn_ids, fdefs, blk=None, var_asserts=()):
                         alt.append(("modeUpd", upd[0], ov << upd[1]))
                     alts.append(alt)
                 M.out_sites.append((fname, c, upd[2] if upd else None))
-                evs.append((("choice", alts), i.text))
+                evs.append((("choice", alts, (c, key, upd[1] if upd else 0)), i.text))
             else:
                 evs.append((("call", M.clone_id[(c, key, None)], m0), i.text))
         elif c in fdefs:
@@ -1975,6 +1996,12 @@ def render(M, C, origin="current tree"):
     o.append("-- out-parameter functions (`*p = constant` only, at most one value per activation; one clone per value, %d = none): %s; "
              "call sites (caller, callee, guard variable that receives the value): %s; nodes without successors (a store of another value): %s" % (
                  OUT_NONE, {k: (v["idx"], v["vals"]) for k, v in M.out_param.items()}, sorted(set(M.out_sites), key=str), M.stop_nodes))
+    o.append("/-- out-parameter functions, per (function, key constant): (nodes per clone, [(graph function, value its activations store; %d = nothing)],\n"
+             "    [(node offset of a store through the parameter, constant)]) -/" % OUT_NONE_L)
+    o.append("abbrev outFamilies : List (Nat × List (Nat × Nat) × List (Nat × Nat)) := [" + ", ".join(
+        "(%d, [%s], [%s])" % (sz, ", ".join("(%d, %d)" % x for x in cl), ", ".join("(%d, %d)" % x for x in st)) for sz, cl, st in M.out_families) + "]\n")
+    o.append("/-- calls of out-parameter functions: (fork node, family, bit offset of the guard variable that receives the value; 0 = none) -/")
+    o.append("abbrev outSites : List (Nat × Nat × Nat) := [" + ", ".join("(%d, %d, %d)" % x for x in M.out_site_rows) + "]\n")
     table("certK", "List Case", ["[" + ", ".join("(%d, %s)" % (m, _lnat_list(k)) for m, k in cs) + "]" for cs in C.K], "[]",
           "UNTRUSTED certificate (checked by `certOK`): cases known on entry to node n")
     table("certPost", "List Nat", [_lnat_list(k) for k in C.post], "[]", "untrusted: postcondition of function n")
